@@ -3,11 +3,12 @@
 
 A template (verus/*.rs.tmpl or kani_x/*.rs.tmpl) contains directives:
 
-  //@item file=<path under /repo> kind=fn|struct|static name=<ident> [impl=<header prefix>] [nth=<k>]
+  //@item file=<path under /repo> kind=fn|struct|enum|static name=<ident> [impl=<header prefix>] [nth=<k>]
   //@  sig: <replacement for the return part, e.g.  -> (r: Self)>       (optional; names the return value)
   //@  spec: <clause line>                                              (0..n lines, inserted between signature and body)
   //@  loop <k>: <clause line>                                          (inserted after the k-th loop header, before its `{`)
   //@  subst: <literal text> => <replacement>                           (explicit, listed rewrites of the body text)
+  //@  headsubst: <literal text> => <replacement>                       (explicit, listed rewrite of the signature text, e.g. a parameter type)
   //@  resubst: <regex> => <replacement>                                (same with a regex; applies where it matches, no error if it does not)
   //@  name-iter <k>: <ident>                                            (k-th loop must be `for PAT in EXPR {`; rewritten to `for PAT in <ident>: EXPR {` so that invariants can mention the iterator's ghost state)
   //@  before-text "<anchor>": <ghost line>                              (inserted in front of the first occurrence of the anchor text in the body)
@@ -122,6 +123,8 @@ def find_item(src, kind, name, impl=None, nth=1):
         rx = re.compile(r'^[ \t]*(?:pub(?:\([a-z:]+\))?\s+)?(?:const\s+)?fn\s+' + re.escape(name) + r'\b', re.M)
     elif kind == 'struct':
         rx = re.compile(r'^[ \t]*(?:pub(?:\([a-z:]+\))?\s+)?struct\s+' + re.escape(name) + r'\b', re.M)
+    elif kind == 'enum':
+        rx = re.compile(r'^[ \t]*(?:pub(?:\([a-z:]+\))?\s+)?enum\s+' + re.escape(name) + r'\b', re.M)
     elif kind == 'static':
         rx = re.compile(r'^[ \t]*(?:pub(?:\([a-z:]+\))?\s+)?(?:static|const)\s+' + re.escape(name) + r'\b', re.M)
     else:
@@ -237,6 +240,7 @@ def process_template(tmpl_text, repo):
             specs = []
             loops = {}
             substs = []
+            head_substs = []
             pre = []
             body_start = []
             item_before_text = []
@@ -263,6 +267,10 @@ def process_template(tmpl_text, repo):
                 m = re.match(r'^//@\s+resubst:\s?(.*?) => (.*)$', d)
                 if m:
                     substs.append((re.compile(m.group(1)), m.group(2)))
+                    continue
+                m = re.match(r'^//@\s+headsubst:\s?(.*?) => (.*)$', d)
+                if m:
+                    head_substs.append((m.group(1), m.group(2)))
                     continue
                 m = re.match(r'^//@\s+pre:\s?(.*)$', d)
                 if m:
@@ -323,6 +331,11 @@ def process_template(tmpl_text, repo):
                         raise ExtractError('%s: subst source text %r not found (code changed?)' % (ident, a))
                     body = body.replace(a, b)
                     changes.append('subst %r => %r' % (a, b))
+                for a, b in head_substs:
+                    if a not in head:
+                        raise ExtractError('%s: headsubst source text %r not found in the signature (code changed?)' % (ident, a))
+                    head = head.replace(a, b)
+                    changes.append('signature rewrite %r => %r' % (a, b))
                 if sig is not None:
                     m = re.search(r'->\s*[^{]*$', head, re.S)
                     if m:
